@@ -31,6 +31,12 @@ func shapes(thorough bool) []Shape {
 				}
 			}
 		}
+		// more sub-cores than a port buffer holds messages (the SM-to-sub-core port has 4 entries)
+		for _, s := range []int{1, 2} {
+			for _, c := range []int{5, 8} {
+				out = append(out, Shape{1, s, c, f})
+			}
+		}
 	}
 	return out
 }
@@ -245,6 +251,28 @@ func genCases(thorough bool) []Case {
 	add := func(fam string, shape [][][]int) {
 		cases = append(cases, Case{Family: fam, Trace: b.trace(shape, v), Simulate: true})
 		v++
+	}
+	// ---- wide blocks: more warps per block than a 4-entry port buffer / than sub-cores
+	for _, k := range []int{1, 2} {
+		for _, nb := range []int{1, 2} {
+			for _, nw := range []int{5, 9} {
+				for _, n := range []int{1, 3} {
+					var shape [][][]int
+					for i := 0; i < k; i++ {
+						var blocks [][]int
+						for j := 0; j < nb; j++ {
+							warps := make([]int, nw)
+							for x := range warps {
+								warps[x] = n
+							}
+							blocks = append(blocks, warps)
+						}
+						shape = append(shape, blocks)
+					}
+					add("wide-blocks", shape)
+				}
+			}
+		}
 	}
 	// ---- uniform: k x b x w x n (k = 3 goes beyond the design: with two devices a
 	// kernel is still queued when a device reports its kernel finished)
